@@ -169,11 +169,37 @@ def _check_reserved(ctx, kind, p, rm, case, origin):
             ok2, got = attempt(read_back, kind, v)
             if not ok2 or got != p:
                 ctx.fail("msg.getters", "parameters_differ", f"{kind}/{origin}/" + (C.diff_keys(got, p) if ok2 else exc_sig(got)), case, observed=got if ok2 else repr(got), expected=p)
+            elif kind in ("originating_id", "put_request", "put_response", "listing_request", "listing_options"):
+                # the parameter objects themselves compare equal to the ones the message was built from
+                orig = _orig_params(kind, p)
+                ok3, e = attempt(lambda: (v == orig) and (orig == v))
+                ctx.check("msg.getters", ok3 and e is True, "parameter_object_not_equal_to_original", f"{kind}/{origin}", case, observed=repr(e))
+                if kind == "originating_id":
+                    ctx.check("msg.getters", hash(v) == hash(orig) and {orig: 1}.get(v) == 1, "transaction_id_hash_differs", origin, case)
         else:
             if not ok:
                 ctx.fail("msg.getters", "foreign_getter_raised", f"{k2}_on_{kind}/{exc_sig(v)}", case, error=repr(v))
             elif v is not None:
                 ctx.fail("msg.getters", "foreign_getter_returned_value", f"{k2}_on_{kind}", case, observed=repr(v))
+
+
+def _orig_params(kind, p):
+    X = C.lib()
+    from spacepackets.cfdp import tlv as T
+    from spacepackets.cfdp.defs import TransactionId, ConditionCode, DeliveryCode, FileStatus
+    bf = X.ByteFieldGenerator.from_int
+    if kind == "originating_id":
+        return TransactionId(bf(*p["src"]), bf(*p["seq"]))
+    if kind == "put_request":
+        return T.ProxyPutRequestParams(bf(*p["dest_id"]), X.CfdpLv.from_str(p["src"]), X.CfdpLv.from_str(p["dst"]))
+    if kind == "put_response":
+        fp = X.FinishedParams(ConditionCode(p["cond"]), DeliveryCode(p["delivery"]), FileStatus(p["status"]))
+        return T.ProxyPutResponseParams.from_finished_params(fp)
+    if kind == "listing_request":
+        return T.DirectoryParams.from_strs(p["path"], p["file"])
+    if kind == "listing_options":
+        return T.DirListingOptions(bool(p["recursive"]), bool(p["all"]))
+    raise AssertionError(kind)
 
 
 def k_not_reserved(ctx, content):
